@@ -424,7 +424,7 @@ func init() {
 	core.Register(&core.Prop{
 		ID:        "C16",
 		Technique: "JSON-model round-trip monitor for the real JSON map/array codecs: top level, struct fields, skipped unknown fields, re-used non-nil targets, and Descriptor rendering parsed by encoding/json",
-		Rule:      "random JSON-model trees (one value in sixty nested 40-130 deep; json.Number literals beyond float64 and int64; records decoded again into a map that holds their keys, the buffer then overwritten; nil, bool, int, float64 finite, string, json.Number, []any, map[string]any; depth <= 6; empty keys and strings, zeros, nil and empty containers at every position, typed-nil containers inside interfaces) as a top-level object and array, as fields of a struct between plain fields, decoded into a struct that lacks the JSON fields, decoded into non-nil targets of another shape, and rendered through the codec's Descriptor. Equality treats nil and empty containers alike. distinct = distinct (object, array) pairs",
+		Rule:      "random JSON-model trees (one value in sixty nested 40-130 deep; json.Number literals beyond float64 and int64; records decoded again into a map that holds their keys, the buffer then overwritten; nil, bool, int, float64 finite, string, json.Number, []any, map[string]any; depth <= 6; empty keys and strings, zeros, nil and empty containers at every position, typed-nil containers inside interfaces) as a top-level object and array, as fields of a struct between plain fields, decoded into a struct that lacks the JSON fields, decoded into non-nil targets of another shape, decoded afresh after every container of an earlier result was written to, and rendered through the codec's Descriptor. Equality treats nil and empty containers alike. distinct = distinct (object, array) pairs",
 		Assume:    []string{"encoding/json as the parser of the rendering; map keys restricted to valid UTF-8 for the rendering comparison"},
 		Plan: func(tier string) []core.Lane {
 			if tier == "thorough" {
